@@ -29,10 +29,12 @@ var c6BindingLists = [][]c6Binding{
 	{{"c1", 1}, {"c2", 0}},
 	{{"c1", 3}, {"c2", 0}},
 	{{"condition", 3}},
+	{{"condition", 0}, {"internal-panic", 0}},
+	{{"c1", 0}, {"condition", 1}, {"internal-panic", 2}},
 }
 
 // wrapper: 0 progn, 1 ignore-errors, 2+i handler-bind with binding list i
-const c6NWrap = 11
+const c6NWrap = 13
 
 // signal: 0 none, 1 (error 'c1 d), 2 (error 'c2 d), 3 forged (error 'internal-panic d), 4 real host panic
 type c6Node struct {
